@@ -53,6 +53,7 @@ type engine struct {
 	knownL  map[string]bool // segment keys seen in segmeta.json so far
 	knownM  map[string]bool
 	lenient bool            // after a restart / crash: what happened to unrotated data is not C14's business
+	restarted bool          // the server was restarted at least once: metricmeta.json may hold replayed entries
 	extra   []evt           // events added to open segments after the passes (After phase)
 	extraAt map[pair][]evt  // ... per (org,index)
 	rotatedOpen bool        // After == rotate done: open segments now have segmeta entries
@@ -309,6 +310,13 @@ func (e *engine) build() error {
 			e.lastMRot = time.Now()
 		}
 		if err := e.registerRound(ri, r); err != nil {
+			return err
+		}
+	}
+	if e.cs.PreRestart {
+		// The server is restarted between the last rotation and the pass: a server that has been up for the
+		// hours it takes a segment to expire no longer remembers it as "recently rotated" (60 s list).
+		if err := e.bounce("restart before the open segments are written"); err != nil {
 			return err
 		}
 	}
@@ -783,7 +791,7 @@ func (e *engine) checkFiles(stage string) error {
 	if err != nil {
 		return fmt.Errorf("%s: %v", stage, err)
 	}
-	_, mmeta, err := readMetaFileDup(e.paths["mmeta"], "mSegmentDir", e.lenient)
+	_, mmeta, err := readMetaFileDup(e.paths["mmeta"], "mSegmentDir", e.restarted)
 	if err != nil {
 		return fmt.Errorf("%s: %v", stage, err)
 	}
@@ -853,7 +861,7 @@ func (e *engine) checkFiles(stage string) error {
 		if known[k] != nil {
 			continue
 		}
-		if e.lenient || (e.rotatedOpen && openMOrgs[numField(m, "orgid")]) {
+		if e.restarted || (e.rotatedOpen && openMOrgs[numField(m, "orgid")]) {
 			// after a restart the entries of the unrotated metrics segments (empty ones too) are replayed
 			// from the meta-entry log: recovery of unrotated metrics is another property's subject
 			continue
@@ -937,7 +945,8 @@ func (e *engine) hasMetrics() bool {
 	return false
 }
 
-func (e *engine) restart(stage string) error {
+// bounce stops the server (if it still runs) and starts it again on the same data directory.
+func (e *engine) bounce(stage string) error {
 	if e.c != nil && !e.c.Dead() && e.hasMetrics() {
 		e.metaWalTick()
 	}
@@ -951,6 +960,15 @@ func (e *engine) restart(stage string) error {
 	}
 	if !synced {
 		return pt.Inconclusivef("%s: start-up metadata load did not finish within 20 s", stage)
+	}
+	e.restarted = true
+	return nil
+}
+
+// restart after unrotated data was written: from now on the unrotated data is not asserted.
+func (e *engine) restart(stage string) error {
+	if err := e.bounce(stage); err != nil {
+		return err
 	}
 	e.lenient = true
 	return nil
